@@ -59,7 +59,8 @@ def _pdeathsig():
 
 
 class _Child:
-    TIMEOUT = 90.0
+    TIMEOUT = 90.0  # per request
+    START_TIMEOUT = 600.0  # interpreter start + sqlalchemy import on a heavily loaded machine
 
     def __init__(self, ctx):
         env = dict(os.environ)
@@ -69,7 +70,7 @@ class _Child:
         self.dead = None
         self.p = subprocess.Popen([PY, "-u", "-m", "checks._c55_child"], stdin=subprocess.PIPE, stdout=subprocess.PIPE, stderr=self.errf,
                                   env=env, cwd=VERIF, preexec_fn=_pdeathsig)
-        hello = self._read()
+        hello = self._read(self.START_TIMEOUT)
         if "error" in hello:
             self._fail("child failed to start: " + hello["error"])
         if hello.get("hello") != "compiled" or not all(hello["compiled"].values()):
@@ -87,10 +88,11 @@ class _Child:
         self.stop()
         raise HarnessError(f"C55 child interpreter: {msg}\n--- child stderr ---\n{self._stderr_tail()}")  # a harness error (exit 2), never a violation
 
-    def _read(self):
-        r, _, _ = select.select([self.p.stdout], [], [], self.TIMEOUT)
+    def _read(self, timeout=None):
+        timeout = timeout or self.TIMEOUT
+        r, _, _ = select.select([self.p.stdout], [], [], timeout)
         if not r:
-            self._fail(f"no answer within {self.TIMEOUT}s (hang)")
+            self._fail(f"no answer within {timeout}s (hang)")
         line = self.p.stdout.readline()
         if not line:
             self._fail(f"exited unexpectedly (rc={self.p.poll()})")
@@ -141,11 +143,18 @@ def _child_for(ctx):
     the child's stop() is chained in front of it, so the child is killed at the
     end of the shard whatever happened (plus PR_SET_PDEATHSIG / stdin-EOF as
     safety nets should the shard process itself be killed)."""
+    err = getattr(ctx, "_c55_child_error", None)
+    if err is not None:
+        raise HarnessError(err)  # a failed start stays failed for the whole shard (deterministic harness error, no retry)
     ch = getattr(ctx, "_c55_child", None)
     if ch is None:
         if interp.build_info() != {k: False for k in interp.build_info()}:
             raise HarnessError(f"check process must run the pure-Python build, got {interp.build_info()}")
-        ch = _Child(ctx)
+        try:
+            ch = _Child(ctx)
+        except HarnessError as e:
+            ctx._c55_child_error = str(e)
+            raise
         ctx._c55_child = ch
         orig_cleanup = ctx.cleanup
 
